@@ -26,7 +26,7 @@ EXPLANATION = (
 
 RULES = {
     "C18-N": "no integer on this property's data path is narrowed by an implicit conversion (parameter handed to a narrower parameter, stored in a narrower field, or a narrow field behind a wider accessor)",
-    "C18-K1": "SCPI_ErrorTranslate returns a non-NULL string literal on every path (fallback description in the default arm)",
+    "C18-K1": "SCPI_ErrorTranslate returns a non-NULL, non-empty string for every code; every code the header lists translates to its own text and every other code to the one fallback description",
     "C18-K2": "bytes written between the quotes never exceed the 255-character budget: conservation invariant, no unsigned wrap of the budget",
     "C18-K3": "opening quote first, every emitted inner quote doubled, closing quote on every path",
     "C18-K4": "SYSTem:ERRor? pops one entry, prints it, then releases its text, on every path",
@@ -46,12 +46,45 @@ def rule_k1(ck, prog):
     # the description for every error code, by evaluating the function (a switch, an if-chain or a table with a search loop):
     # over the regions its constants cut the int16 domain into (quick) or over all 65536 codes (thorough)
     from sa import interp as I
+    import re
     lo, hi = -32768, 32767
-    dom = range(lo, hi + 1) if getattr(ck, "tier", "quick") == "thorough" else sorted(K.breakpoints(prog, f, lo, hi))
+
+    def macro_int(name, depth=0):
+        v = prog.macros.get(name)
+        while v is not None and depth < 6:
+            v = v.strip().strip("()")
+            try:
+                return int(v, 0)
+            except ValueError:
+                v, depth = prog.macros.get(v), depth + 1
+        return None
+    # the table the header lists (X-macro rows: name, code, text); XE rows belong to the full list only
+    listed = {}
+    body = prog.macros.get("LIST_OF_ERRORS")
+    if body is None:
+        ck.anchor_lost("C18-K1", "macro LIST_OF_ERRORS")
+        return
+    full = macro_int("USE_FULL_ERROR_LIST")
+    rows = re.findall(r'\b(XE?)\(\s*(\w+)\s*,\s*(-?\d+)\s*,\s*"((?:[^"\\\\]|\\\\.)*)"\s*\)', body)
+    if macro_int("USE_USER_ERROR_LIST"):
+        rows += re.findall(r'\b(X)\(\s*(\w+)\s*,\s*(-?\d+)\s*,\s*"((?:[^"\\\\]|\\\\.)*)"\s*\)', prog.macros.get("LIST_OF_USER_ERRORS") or "")
+    for kind, name, val, text in rows:
+        if kind == "X" or full:
+            listed.setdefault(int(val), text)
+    if len(listed) < 10 or full is None:
+        ck.anchor_lost("C18-K1", "rows of LIST_OF_ERRORS (%d parsed, USE_FULL_ERROR_LIST=%s)" % (len(listed), full))
+        return
+    if getattr(ck, "tier", "quick") == "thorough":
+        dom = range(lo, hi + 1)
+    else:
+        pts = set(K.breakpoints(prog, f, lo, hi))
+        for c in listed:
+            pts.update(x for x in (c - 1, c, c + 1) if lo <= x <= hi)
+        dom = sorted(pts)
     m = I.Machine(prog, max_steps=10 ** 9)
     bad = None
     n_ok = 0
-    texts = set()
+    texts = {}
     for code in dom:
         try:
             v = m.run(f, [code])
@@ -63,14 +96,32 @@ def rule_k1(ck, prog):
         if t is None or t == "":
             bad = (code, t)
             break
-        texts.add(t)
+        texts[code] = t
         n_ok += 1
     if bad:
         ck.violated("C18-K1", st, K.loc(f), "error code %d has %s description: the response to the error query has no text and "
                     "the length computation reads through it" % (bad[0], "a NULL" if bad[1] is None else "an empty"))
     else:
         ck.holds("C18-K1", st, K.loc(f), "%d codes evaluated (%s), %d distinct non-empty descriptions incl. the fallback"
-                 % (n_ok, "whole int16 domain" if len(dom) == 65536 else "every region between the constants the function compares with", len(texts)))
+                 % (n_ok, "whole int16 domain" if len(dom) == 65536 else "every region between the constants the function compares with, "
+                    "every listed code and its neighbours", len(set(texts.values()))))
+        # every listed code answers with its own text, every other code with the one fallback
+        st2 = K.site(f, "table-entries-reachable", 0)
+        wrong = [(c, texts[c], listed[c]) for c in sorted(listed, reverse=True) if c in texts and texts[c] != listed[c]]
+        other = {}
+        for c, t in texts.items():
+            if c not in listed:
+                other.setdefault(t, []).append(c)
+        if wrong:
+            c, got_, want_ = wrong[0]
+            ck.violated("C18-K1", st2, K.loc(f), "code %d is listed with the description \"%s\" but translates to \"%s\"%s"
+                        % (c, want_, got_, "" if len(wrong) == 1 else " (and %d more listed codes)" % (len(wrong) - 1)))
+        elif len(other) > 1:
+            ck.violated("C18-K1", st2, K.loc(f), "codes without a table entry do not share one fallback description: %s"
+                        % {t: cs[:3] for t, cs in sorted(other.items())})
+        else:
+            ck.holds("C18-K1", st2, K.loc(f), "%d listed codes translate to their own text; every other evaluated code to %s"
+                     % (len(listed), sorted(other)))
     ck.analysed(f)
 
 
